@@ -45,6 +45,19 @@ theorem method_name_batch_in_source :
         ++ ", _amounts, _destinations, _fees, _batchNonce, _tokenContract, _batchTimeout" := by
   decide +kernel
 
+/-- The literal in `submitLogicCall` is "logicCall" right-padded to 32 bytes, as the Go side copies it. -/
+theorem method_name_call :
+    hexToBytes (strip0x "0x6c6f67696343616c6c0000000000000000000000000000000000000000000000")
+      = padRight (strBytes "logicCall") 32 := by
+  decide +kernel
+
+/-- … and it is the second argument of the `abi.encode` call of `submitLogicCall`. -/
+theorem method_name_call_in_source :
+    Generated.sol_logic_call_encode =
+      "state_gravityId, " ++ "0x6c6f67696343616c6c0000000000000000000000000000000000000000000000"
+        ++ ", _args.transferAmounts, _args.transferTokenContracts, _args.feeAmounts, _args.feeTokenContracts, _args.logicContractAddress, _args.payload, _args.timeOut, _args.invalidationId, _args.invalidationNonce" := by
+  decide +kernel
+
 theorem method_name_lengths :
     (padRight (strBytes "checkpoint") 32).length = 32 ∧
     (padRight (strBytes "transactionBatch") 32).length = 32 := by
@@ -63,6 +76,50 @@ theorem checkpoint_args_agree_batch (g : Bytes) (b : BatchView) :
     goArgsBatch g b =
       solArgsBatch g (padRight (strBytes "transactionBatch") 32) b.amounts b.destinations b.fees
         b.nonce b.token b.timeout := rfl
+
+/-- Contract (logic) calls: the hub packs what `submitLogicCall` encodes, with the invalidation scope as the
+    `bytes32` the contract is handed: its first 32 bytes, right padded (`scope32`). -/
+theorem checkpoint_args_agree_call (g : Bytes) (c : CallView) :
+    goArgsCall g c =
+      solArgsCall g (padRight (strBytes "logicCall") 32) c.transferAmounts c.transferTokens c.feeAmounts
+        c.feeTokens c.logicContract c.payload c.timeout (scope32 c.invalidationScope) c.invalidationNonce := rfl
+
+theorem checkpoint_encoding_agrees_call (g : Bytes) (c : CallView) :
+    abiEncode (goArgsCall g c) =
+      abiEncode (solArgsCall g
+        (hexToBytes (strip0x "0x6c6f67696343616c6c0000000000000000000000000000000000000000000000"))
+        c.transferAmounts c.transferTokens c.feeAmounts c.feeTokens c.logicContract c.payload c.timeout
+        (scope32 c.invalidationScope) c.invalidationNonce) := by
+  rw [method_name_call, checkpoint_args_agree_call]
+
+theorem checkpoint_digest_agrees_call (gravityId : String) (c : CallView) :
+    checkpointCall gravityId c =
+      (fixed32 gravityId).map fun g =>
+        keccak256 (abiEncode (solArgsCall g
+          (hexToBytes (strip0x "0x6c6f67696343616c6c0000000000000000000000000000000000000000000000"))
+          c.transferAmounts c.transferTokens c.feeAmounts c.feeTokens c.logicContract c.payload c.timeout
+          (scope32 c.invalidationScope) c.invalidationNonce)) := by
+  unfold checkpointCall
+  simp only [checkpoint_encoding_agrees_call]
+
+/-- The invalidation id handed to the contract is always a `bytes32` … -/
+theorem scope32_length (s : Bytes) : (scope32 s).length = 32 := by
+  unfold scope32 padRight
+  simp only [List.length_append, List.length_replicate, List.length_take]
+  omega
+
+/-- … a full 32-byte scope is passed unchanged … -/
+theorem scope32_full (s : Bytes) (h : s.length = 32) : scope32 s = s := by
+  unfold scope32 padRight
+  rw [List.take_of_length_le (by omega)]
+  simp [h]
+
+/-- … and a shorter one is RIGHT padded: it is a prefix of the id (Solidity `bytes32("…")`,
+    ethers `formatBytes32String`), never shifted to the low-order end. -/
+theorem scope32_prefix (s : Bytes) (h : s.length ≤ 32) : (scope32 s).take s.length = s := by
+  unfold scope32 padRight
+  rw [List.take_of_length_le h]
+  simp
 
 theorem checkpoint_encoding_agrees_signerset (g : Bytes) (nonce : Nat) (members : List Signer) :
     abiEncode (goArgsSignerSet g nonce members) =
@@ -326,6 +383,26 @@ theorem fact_ckpt_batch_literals : Generated.ckpt_batch_literals =
     "\"transactionBatch\" \"submitBatch\"" := rfl
 theorem fact_ckpt_batch_pack : Generated.ckpt_batch_pack =
     "packCall(BatchTxCheckpointABIJSON, \"submitBatch\", args)" := rfl
+theorem fact_ckpt_call_args : Generated.ckpt_call_args =
+    "gravityIDFixed | logicCallMethodName | transferAmounts | transferTokenContracts | feeAmounts | feeTokenContracts | gethcommon.HexToAddress(c.Address) | payload | new(big.Int).SetUint64(c.Timeout) | invalidationId | new(big.Int).SetUint64(c.InvalidationNonce)" := rfl
+theorem fact_ckpt_call_intconv : Generated.ckpt_call_intconv =
+    "" := rfl
+theorem fact_ckpt_call_literals : Generated.ckpt_call_literals =
+    "\"logicCall\" \"checkpoint\"" := rfl
+theorem fact_ckpt_call_copies : Generated.ckpt_call_copies =
+    "copy(logicCallMethodName[:], methodNameBytes[:]) | copy(payload, c.Payload) | copy(invalidationId[:], c.InvalidationScope[:])" := rfl
+theorem fact_ckpt_call_fixed_decls : Generated.ckpt_call_fixed_decls =
+    "var logicCallMethodName [32]uint8 | var invalidationId [32]byte" := rfl
+theorem fact_ckpt_call_pack : Generated.ckpt_call_pack =
+    "packCall(ContractCallTxABIJSON, \"checkpoint\", args)" := rfl
+theorem fact_ckpt_signerset_copies : Generated.ckpt_signerset_copies =
+    "copy(checkpoint[:], checkpointBytes[:])" := rfl
+theorem fact_ckpt_batch_copies : Generated.ckpt_batch_copies =
+    "copy(batchMethodName[:], methodNameBytes[:])" := rfl
+theorem fact_abi_ContractCallTxABIJSON : Generated.abi_ContractCallTxABIJSON =
+    "_gravityId:bytes32,_methodName:bytes32,_transferAmounts:uint256[],_transferTokenContracts:address[],_feeAmounts:uint256[],_feeTokenContracts:address[],_logicContractAddress:address,_payload:bytes,_timeout:uint256,_invalidationId:bytes32,_invalidationNonce:uint256" := rfl
+theorem fact_sol_logic_call_encode : Generated.sol_logic_call_encode =
+    "state_gravityId, 0x6c6f67696343616c6c0000000000000000000000000000000000000000000000, _args.transferAmounts, _args.transferTokenContracts, _args.feeAmounts, _args.feeTokenContracts, _args.logicContractAddress, _args.payload, _args.timeOut, _args.invalidationId, _args.invalidationNonce" := rfl
 theorem fact_packcall_return : Generated.packcall_return =
     "crypto.Keccak256Hash(abiEncodedCall[4:]).Bytes()" := rfl
 theorem fact_abi_SignerSetTxCheckpointABIJSON : Generated.abi_SignerSetTxCheckpointABIJSON =
@@ -401,6 +478,16 @@ example :
     let r : Bytes → Bytes → Option Bytes := fun _ sig => if sig.getD 64 9 = 0 then some (sig.take 20) else none
     validateSig r [1, 2, 3] (List.replicate 64 7 ++ [27]) (List.replicate 20 7) = true := by
   simp only [validateSig, normV]
+  decide +kernel
+
+/-- A 14-byte invalidation scope lands in the FIRST 14 bytes of the id. -/
+example : scope32 (List.replicate 14 7) = List.replicate 14 7 ++ List.replicate 18 0 := by decide +kernel
+
+/-- A call with one transfer, no fee, a 3-byte payload: 11 heads + five tails. -/
+example : (abiEncode (goArgsCall (List.replicate 32 1)
+    { transferAmounts := [5], transferTokens := [List.replicate 20 9], feeAmounts := [], feeTokens := [],
+      logicContract := List.replicate 20 3, payload := [1, 2, 3], timeout := 10,
+      invalidationScope := [7, 7], invalidationNonce := 4 })).length = 11 * 32 + 64 + 64 + 32 + 32 + 64 := by
   decide +kernel
 
 end Mhub2.C07
